@@ -277,6 +277,14 @@ pub fn finish(
     let replay_dir = ctx.verif_dir.join("evidence").join("replays");
     let _ = std::fs::create_dir_all(&replay_dir);
     let mut viol_lines = vec![];
+    // at most 2 replay files per distinct signature, 12 in total
+    let mut per_sig: BTreeMap<String, usize> = BTreeMap::new();
+    real_viols.retain(|(_, v)| {
+        let e = per_sig.entry(v.sig.clone()).or_insert(0);
+        *e += 1;
+        *e <= 2
+    });
+    real_viols.truncate(12);
     for (i, (case, v)) in real_viols.iter().enumerate() {
         let path = replay_dir.join(format!("{}-{}-{}.json", ctx.id, ctx.seed, i));
         let doc = json!({"property": ctx.id, "tier": ctx.tier.name(), "seed": ctx.seed, "signature": v.sig, "what": v.what, "case": case, "detail": v.detail});
